@@ -737,6 +737,11 @@ class ExprMixin:
             raise Refuse(f"comprehension over {it!r} at line {e.lineno}")
         return self.bind(self.ev(g.iter, st), run)
 
+    def ev_Slice(self, e, st):
+        # a slice object inside a tuple subscript (a[:, j]): an opaque key built from its bounds
+        parts = [x for x in (e.lower, e.upper, e.step) if x is not None]
+        return self.bind(self.ev_many(parts, st), lambda s, vs: [(s, VOpaque(hint='slice', nonnull=True))])
+
     def ev_Starred(self, e, st):
         raise Refuse("starred expression")
 
